@@ -5,7 +5,7 @@ RULE = (
     "one evaluation = one row transition (env.step or step_to_solution) of TSPkoptEnv (k=2,3,4) / PDPRuinRepairEnv observed by "
     "the shadow monitor: rec_current / rec_best single cycles (PDP: pickups before deliveries), cost_current / cost_bsf "
     "equal to float64 tour lengths, cost_bsf == the monitor's own running minimum and never increasing, reward == decrease "
-    "of best-so-far, rewards summing to initial - best, visited_time == visiting order. Drivers: (a) ALL moves admitted by "
+    "of best-so-far, rewards summing to initial - best, visited_time == visiting order, get_current_solution / get_best_solution == the tours walked from node 0 (and _get_linked_list_solution their inverse). Drivers: (a) ALL moves admitted by "
     "the env's move mask from a state (2-opt: every ordered pair; ruin-repair: every (pair, first, second)) for states "
     "reached by random chains, plus one further random move from every successor; (b) the env's own random-move sampler "
     "over chains of 40-120 steps with step_to_solution jumps (back to the own best tour, and onto the best tour of an "
@@ -16,7 +16,7 @@ ASSUMPTIONS = [
     "lengths compared within 1e-4 relative (float32 env vs float64 reference); reward within 1e-5",
     "policies are untrained small networks (embed 32, 1 layer): near-uniform move distributions over the moves their own masks admit",
 ]
-REQUIRED_COUNTERS = ["c09_torchrl_steps", "episodes", "c09_transitions", "c09_exhaustive_moves", "c09_policy_steps", "c09_step_to_solution", "c09_step_to_better_solution", "c09_improving_steps", "c09_non_improving_after_improvement"]
+REQUIRED_COUNTERS = ["c09_solution_accessor_checks", "c09_torchrl_steps", "episodes", "c09_transitions", "c09_exhaustive_moves", "c09_policy_steps", "c09_step_to_solution", "c09_step_to_better_solution", "c09_improving_steps", "c09_non_improving_after_improvement"]
 MIN_NONTRIVIAL = {"quick": 30000, "thorough": 300000}
 WORKERS = {"quick": 14, "thorough": 16}
 BUDGET_S = {"quick": 500, "thorough": 3000}
@@ -62,6 +62,8 @@ def cases(tier, seed):
     for c in out:
         if rnd2.random() < 0.34:
             c["cfg"]["init"] = "greedy"
+        if c["kind"] == "policy" and rnd2.random() < 0.4:
+            c["phase"] = "train"  # training-phase decoding (log-likelihood of the sampled move is gathered)
         if c["kind"] == "sampler" and rnd2.random() < 0.3:
             c["cfg"]["torchrl"] = True  # documented TorchRL mode: the stepped-from state must survive the step
     return out
